@@ -108,6 +108,11 @@ def _one(rng, fam, mon, sigs, hist):
         at0, _ = scen.maybe_sub(rng, at0, p=0.3, min_cells=4)
     if fam != "slip" and rng.random() < 0.5:
         at0 = at0.similarity(scale=10 ** rng.uniform(-1, 2), theta=rng.uniform(0, 6.28), shift=complex(*rng.uniform(-50, 50, 2)))
+    elif fam in ("inbounds", "wide") and rng.random() < 0.3:
+        # physical units: a whole tissue smaller than one length unit, around the origin
+        sc_ = float(10 ** rng.uniform(-4, -1.5))
+        at0 = at0.similarity(scale=sc_, theta=rng.uniform(0, 6.28), shift=-at0.centroid() * sc_ * np.exp(1j * 0))
+        hist["small-units"] = hist.get("small-units", 0) + 1
     nfr = int(rng.integers(2, 7)) if fam != "slip" else int(rng.integers(2, 4))
     cm = bool(rng.random() < 0.4) and fam not in ("wide", "slip")
     frac = 0.6 if fam != "outbounds" else float(rng.uniform(1.5, 4.0))
